@@ -19,6 +19,9 @@ type Param struct {
 	// Flag marks a bool pipeline input that feeds a disabled modifier:
 	// callers bind it to values that are never null.
 	Flag bool
+	// NonEmpty marks a stage output that is never null or empty at run
+	// time (honoured by the stage function).
+	NonEmpty bool
 	// SplitSrc marks a pipeline input that (transitively) is the collection
 	// a map call inside the pipeline splits over.
 	SplitSrc bool
